@@ -32,7 +32,7 @@ TIERS = {
 }
 FLOORS = {
     "quick": {"counts": {"segments_measured": 100000, "constant_speed_shapes": 150,
-                         "halving_comparisons": 250, "unit_switch_checks": 300}, "keys": 40},
+                         "halving_comparisons": 250, "unit_switch_checks": 300, "steep_ramps_to_zero": 15}, "keys": 40},
     "thorough": {"counts": {"segments_measured": 3000000, "constant_speed_shapes": 800}, "keys": 60},
 }
 MM_PER_IN = 25.4
@@ -76,6 +76,12 @@ def run_case(ctx, col, case):
         if kind == "polyline_skip":
             kind = "spline"
     scale = rng.choice([1.0, 10.0, 100.0])
+    # steep ramps onto (or just across) Z = 0 from a start well away from it: the Z travel then
+    # dominates the curve length while the absolute target Z is small
+    ramp = kind in ("arc", "arc_radius") and rng.random() < 0.4
+    if ramp:
+        o = (o[0], o[1], rng.choice([-1, 1]) * rng.uniform(0.5, 3.0) * scale)
+        col.count("steep_ramps_to_zero")
     max_ratio = ctx.params["max_ratio"]
     ratio = 10 ** rng.uniform(1.0, math.log10(max_ratio))
 
@@ -90,7 +96,13 @@ def run_case(ctx, col, case):
             target = (tgt[0] - o[0], tgt[1] - o[1], tgt[2] - o[2]) if relative else tgt
             meta = dict(meta, kind="helix_const", turns=turns, target_abs=tgt, with_z=True)
             return "trace.helix", (target, meta["center"], turns), {}, meta
-        return gen.shape_request(r, o, relative, scale=scale, kinds=[kind])
+        nm, args, kw, meta = gen.shape_request(r, o, relative, scale=scale, kinds=[kind])
+        if ramp:
+            t = meta["target_abs"]
+            t = (t[0], t[1], r.choice([0.0, -o[2] * r.uniform(0.05, 0.4)]))
+            meta = dict(meta, target_abs=t, with_z=True)
+            args = (gen._tgt(o, t, relative, True),) + tuple(args[1:])
+        return nm, args, kw, meta
 
     # first pass with a throw-away resolution to learn the geometry (length)
     state = rng.getstate()
